@@ -355,6 +355,23 @@ Theorem C11_binary_state_cut_is_error :
 Proof. exact binary_state_cut. Qed.
 Print Assumptions C11_binary_state_cut_is_error.
 
+(* Whole binary states in which every bias object with hills announces their number (states written since the fix:
+   commit of round 4), the objects with hills being ANYWHERE in the state (two metadynamics biases, a restraint
+   after a metadynamics bias, ...): the data end anywhere after the global block and before the end of the state:
+   the load reports an error.  No exception.  (After the hills of an object in the middle the loop looks one
+   keyword ahead: the end of the data, a complete other keyword, or a keyword cut short -- an error of its own.) *)
+Theorem C11_binary_state_cut_is_error_counted :
+  forall (cv_ok : list byte -> bool) (matches : bbias -> list byte -> option bool) (params_ok : bbias -> list byte -> bool)
+         (expected_hills : bbias -> list byte -> option nat) (gconf : list byte) (datas : list (list byte)) (xs : list bobj)
+         (p q : list byte),
+  item_ok (IStr gconf) -> Forall (cv_data_ok cv_ok) datas ->
+  Forall (obj_ok matches params_ok) xs -> Forall (counted expected_hills) xs -> Forall not_hill_kw xs ->
+  concat (map cv_enc datas) ++ concat (map benc xs) = p ++ q ->
+  q <> [] -> blen (magic ++ genc gconf ++ p) < W64 ->
+  load_bin cv_ok matches params_ok expected_hills (length datas) (map o_b xs) (magic ++ genc gconf ++ p) = true.
+Proof. exact binary_state_cut_counted. Qed.
+Print Assumptions C11_binary_state_cut_is_error_counted.
+
 (* non-vacuity *)
 Example C11_example_roundtrip :
   let l := [IObj [1;2;3;4]; IStr [97;98;99]; IVec 8 [[1;0;0;0;0;0;0;0]; [2;0;0;0;0;0;0;0]]; IVec 3 [[1;2;3]; [4;5;6]]] in
